@@ -33,6 +33,16 @@ one_emit(int e, int serial, int mem16, uint16_t seq, uint32_t addr, size_t n, in
     (void)rg;
     A.out_n = 0;
     A.p.session.sequence = seq;
+    /* every fourth emission meets a sink driver that is interrupted once (EAGAIN / EINTR, nothing moved) at one of
+     * its first calls */
+    static unsigned nemit;
+    A.out_calls = 0;
+    A.out_hiccups = 0;
+    A.out_hiccup_at = SIZE_MAX;
+    if (++nemit % 4u == 0) {
+        A.out_hiccup_at = (nemit / 4u * 7u + vh_unit_salt % 5u) % (A.out_octet ? 48u : 7u);
+        A.out_hiccup_code = (nemit / 4u) & 1u ? -EAGAIN : -EINTR;
+    }
     struct rframe x;
     memset(&x, 0, sizeof x);
     x.seq = seq;
@@ -120,6 +130,18 @@ one_emit(int e, int serial, int mem16, uint16_t seq, uint32_t addr, size_t n, in
     snprintf(key, sizeof key, "entry=%s transport=%s mem=%d", ename(e), serial ? "serial" : "tcp", mem16 ? 16 : 8);
     snprintf(ctx, sizeof ctx, "seq=%u addr=%08x n=%zu reqtype=%d arg=%08x", seq, addr, n, reqtype, arg);
     vh_countf("emitted: %s", ename(e));
+    A.out_hiccup_at = SIZE_MAX;
+    if (A.out_hiccups) {
+        VH_COUNT(A.out_octet ? "emission that met an interrupted sink call (octet-style sink)"
+                             : "emission that met an interrupted sink call (chunk-style sink)");
+        if (rc < 0) {
+            /* the interruption was handed to the caller: no frame was emitted as far as the caller knows */
+            VH_COUNT("emission given up after an interrupted sink call");
+            return;
+        }
+        VH_COUNT(A.out_octet ? "emission through an octet-style sink that was interrupted once"
+                             : "emission through a chunk-style sink that was interrupted once");
+    }
     if (rc < 0)
         vh_fail("emit-fails", key, "%s: rc=%d", ctx, rc);
     size_t rawn = rp_encode_raw(&x, raw);
@@ -204,6 +226,7 @@ u_emit(uint64_t idx, void *arg)
     uint16_t seq = (idx & 4) ? 0xfffd : (uint16_t)vh_rand(&rg);
     for (int k = 0; k < 40; k++) {
         vh_arena_reset();
+        rp_next_sink_octet = (int)((vh_unit_salt >> 7) & 1u);
         rp_setup(&A, serial, mem16, 256);
         rp_setup(&B, serial, mem16, 40000);
         for (int e = 0; e < NEMIT; e++) {
@@ -251,6 +274,7 @@ u_big(uint64_t idx, void *arg)
     int serial = (int)(idx & 1), mem16 = (int)(idx >> 1) & 1;
     for (size_t target = 16380; target <= 16387; target++) {
         vh_arena_reset();
+        rp_next_sink_octet = (int)((vh_unit_salt >> 7) & 1u);
         rp_setup(&A, serial, mem16, 256);
         rp_setup(&B, serial, mem16, 40000);
         size_t hdr = serial ? 16 : 12;
@@ -320,7 +344,8 @@ u_fit(uint64_t idx, void *arg)
             if (pl % ws)
                 continue;
             vh_arena_reset();
-            rp_setup(&A, serial, mem16, 256);
+            rp_next_sink_octet = (int)((vh_unit_salt >> 7) & 1u);
+        rp_setup(&A, serial, mem16, 256);
             rp_setup(&B, serial, mem16, bs);
             fill_payload(&rg, pl);
             VH_CASE4(idx, bs, less, e);
@@ -343,7 +368,8 @@ u_huge(uint64_t idx, void *arg)
     static const size_t octets[] = { 65534, 65535, 65536, 65537, 65538, 131070, 131072, 140002 };
     size_t n = octets[(idx >> 2) % 8];
     vh_arena_reset();
-    rp_setup(&A, serial, mem16, 256);
+    rp_next_sink_octet = (int)((vh_unit_salt >> 7) & 1u);
+        rp_setup(&A, serial, mem16, 256);
     rp_setup(&B, serial, mem16, 300000);
     fill_payload(&rg, n);
     VH_CASE4(idx, n, 0, 0);
@@ -387,4 +413,6 @@ harness_run(void)
     vh_require("frame length at the one/two octet varint boundary");
     vh_require("frame length at the two/three octet varint boundary");
     vh_require("read request with a block size beyond 16 bits or at the field's extremes");
+    vh_require("emission that met an interrupted sink call (octet-style sink)");
+    vh_require("emission that met an interrupted sink call (chunk-style sink)");
 }
